@@ -18,6 +18,8 @@ import (
 )
 
 var solverTimeout = 60 * time.Second
+var execBudget = 90 * time.Second
+var harnessBudget = 6 * time.Minute
 var verbose, noSolve bool
 
 type OblResult struct {
@@ -226,6 +228,7 @@ func runOneMode(ld *Loaded, fn *ssa.Function, opts RunOpts, pool *Pool, abstract
 	ex := NewExec(ld.Prog, opts.Bounds)
 	ex.AbstractMul = abstractMul
 	ex.pool = pool
+	ex.deadline = time.Now().Add(execBudget)
 	if opts.Native {
 		ex.Native = NewNativeEnv()
 	}
@@ -316,6 +319,14 @@ func runOneMode(ld *Loaded, fn *ssa.Function, opts RunOpts, pool *Pool, abstract
 		var or OblResult
 		if b, ok := batched[oi]; ok {
 			or = b
+		} else if time.Since(t1) > harnessBudget {
+			or = OblResult{Kind: o.Kind, Label: o.Label, Pos: o.Pos, Fn: o.Fn, Status: "skipped"}
+			if res.Status == "ok" {
+				res.Status = "inconclusive"
+				res.Detail = fmt.Sprintf("harness solving budget (%s) exceeded with %d obligations left", harnessBudget, len(ex.Obls)-oi)
+			}
+			res.Obls = append(res.Obls, or)
+			continue
 		} else {
 			or = dischargeObl(ex, o, opts, pool)
 		}
